@@ -117,7 +117,6 @@ def handle (j : Json) : Json :=
   let normal := normalB T fuel s doc
   let br := (branches T s doc).eraseDups
   let excl := (if br.contains "dateTrim" then ["DateExampleTrim"] else []) ++
-    (if br.contains "nullRefEntry" then ["NullRefEntry"] else []) ++
     (if br.contains "requiredMapAbsent" then ["RequiredMapAbsent"] else []) ++
     (if br.contains "types.empty" then ["EmptyTypeList"] else [])
   let oj : Res JV → Json := fun o => match o with
